@@ -69,11 +69,11 @@ class Sem:
     """The same, with everything that does not depend on the shading tabulated per underlying
     pattern: one entry per (sigma, classical occurrence o)."""
 
-    def __init__(self, patt, maxlen):
+    def __init__(self, patt, maxlen, max_subset=None):
         self.patt = tuple(patt)
         self.k = len(patt)
         self.maxlen = maxlen
-        self.subsets = index_subsets(self.k)
+        self.subsets = [I for I in index_subsets(self.k) if max_subset is None or len(I) <= max_subset]
         self.cells = {I: frozenset(R.all_cells(len(I))) for I in self.subsets}
         self.entries = []       # (len sigma, sigma, o, occupied cells w.r.t. o, {I: cells hit w.r.t. o[I]})
         for n in range(self.k, maxlen + 1):
